@@ -1,7 +1,8 @@
 import S3V.Thm.XmlEscape
 /-!
 The tokeniser reads back what the writer wrote: `deEvents (tokenize (write evs)) = evs` for well-nested event
-sequences with element names made of name bytes, at most an `xmlns` attribute, and `<`-free non-empty texts that
+sequences with element names made of name bytes, attributes ` key="value"` with such names as keys and `"`-free
+values (the `xmlns` attribute; since 1dc4ea8 also `SerializeContent::attributes`), and `<`-free non-empty texts that
 are not adjacent and — outside every element — white space only (the deserialiser refuses other character data
 there) — in particular for everything the encoder produces (`XmlTokenEnc.lean`).
 -/
@@ -28,11 +29,23 @@ theorem isNameByte_facts {c : UInt8} (h : isNameByte c = true) :
          simp only [isWs, Bool.or_eq_true, decide_eq_true_eq] at hw
          rcases hw with ((hw | hw) | hw) | hw <;> (subst hw; revert h; decide))
 
-/-- the ` xmlns="u"` attribute the serialiser writes on operation outputs -/
-def attrOf (u : Bytes) : Bytes := [32, 120, 109, 108, 110, 115, 61, 34] ++ u ++ [34]
+/-- the attribute bytes of a start tag: ` key="value"` for every pair (`BytesStart::push_attribute`) -/
+def attrsOf (ps : List (Bytes × Bytes)) : Bytes := ps.flatMap fun kv => attrSeg kv.1 kv.2
 
-/-- what may follow the name in a start tag the serialiser writes -/
-def GoodRest (r : Bytes) : Prop := r = [] ∨ ∃ u, r = attrOf u ∧ ∀ c ∈ u, c ≠ cQuot
+/-- what may follow the name in a start tag the serialiser writes: attributes whose keys are made of name bytes and
+whose values hold no `"` (the ` xmlns="…"` of an operation output; the attributes of a value, `attr_value`) -/
+def GoodRest (r : Bytes) : Prop :=
+  ∃ ps : List (Bytes × Bytes), r = attrsOf ps ∧ ∀ kv ∈ ps, goodName kv.1 = true ∧ ∀ c ∈ kv.2, c ≠ cQuot
+
+theorem GoodRest.nil : GoodRest [] := ⟨[], rfl, fun _ h => by simp at h⟩
+
+theorem GoodRest.append {a b : Bytes} (ha : GoodRest a) (hb : GoodRest b) : GoodRest (a ++ b) := by
+  obtain ⟨pa, ha1, ha2⟩ := ha
+  obtain ⟨pb, hb1, hb2⟩ := hb
+  refine ⟨pa ++ pb, by simp [ha1, hb1, attrsOf], fun kv hkv => ?_⟩
+  rcases List.mem_append.mp hkv with h | h
+  · exact ha2 kv h
+  · exact hb2 kv h
 
 theorem splitAtByte_hit (x : UInt8) : ∀ (raw r : Bytes), (∀ c ∈ raw, c ≠ x) → splitAtByte x (raw ++ x :: r) = some (raw, r)
   | [], r, _ => by simp [splitAtByte]
@@ -88,25 +101,50 @@ theorem goodName_plain {n : Bytes} (h : goodName n = true) : ∀ c ∈ n, c ≠ 
   have := isNameByte_facts (h.2 c hc)
   exact ⟨this.1, this.2.1, this.2.2.1⟩
 
+/-- attributes the serialiser wrote are skipped as a whole by the element parser (every `"` is closed again), and
+they begin with a blank and end with a `"` -/
+theorem GoodRest.shape {r : Bytes} (h : GoodRest r) :
+    (∀ X, elementEnd 0 (r ++ X) = (elementEnd 0 X).map fun (q, w) => (r ++ q, w)) ∧
+    (r = [] ∨ ∃ i, r = 32 :: (i ++ [cQuot])) := by
+  obtain ⟨ps, hr, hps⟩ := h
+  subst hr
+  induction ps with
+  | nil =>
+    refine ⟨fun X => ?_, Or.inl rfl⟩
+    cases h : elementEnd 0 X with
+    | none => simp [attrsOf, h]
+    | some pr => simp [attrsOf, h]
+  | cons kv ps ih =>
+    obtain ⟨ih1, ih2⟩ := ih (fun x hx => hps x (by simp [hx]))
+    obtain ⟨hk, hv⟩ := hps kv (by simp)
+    have hcons : attrsOf (kv :: ps) = attrSeg kv.1 kv.2 ++ attrsOf ps := by simp [attrsOf]
+    constructor
+    · intro X
+      have hpre : ∀ c ∈ (32 :: kv.1 ++ [61] : Bytes), c ≠ cGt ∧ c ≠ cApos ∧ c ≠ cQuot := by
+        intro c hc
+        simp only [List.cons_append, List.mem_cons, List.mem_append, List.not_mem_nil, or_false] at hc
+        rcases hc with hc | hc | hc
+        · subst hc; decide
+        · exact goodName_plain hk c hc
+        · subst hc; decide
+      have hsplit : attrsOf (kv :: ps) ++ X = (32 :: kv.1 ++ [61]) ++ (cQuot :: (kv.2 ++ cQuot :: (attrsOf ps ++ X))) := by
+        simp [hcons, attrSeg, cQuot]
+      have hq : ∀ Y, elementEnd 0 (cQuot :: Y) = (elementEnd 2 Y).map fun (p, r) => (cQuot :: p, r) := by
+        intro Y; simp [elementEnd, cQuot, cGt, cApos]
+      rw [hsplit, elementEnd_plain _ _ hpre, hq, elementEnd_dq kv.2 _ hv, ih1 X]
+      cases h : elementEnd 0 X with
+      | none => simp
+      | some pr => simp [hcons, attrSeg, cQuot]
+    · refine Or.inr ?_
+      rcases ih2 with h0 | ⟨i, hi⟩
+      · exact ⟨kv.1 ++ [61, 34] ++ kv.2, by simp [hcons, h0, attrSeg, cQuot]⟩
+      · exact ⟨kv.1 ++ [61, 34] ++ kv.2 ++ [34] ++ 32 :: i, by simp [hcons, hi, attrSeg, cQuot]⟩
+
 /-- the element parser finds the `>` that ends a start tag the serialiser wrote -/
 theorem elementEnd_start {n r : Bytes} (w : Bytes) (hn : goodName n = true) (hr : GoodRest r) :
     elementEnd 0 (n ++ r ++ cGt :: w) = some (n ++ r, w) := by
-  rcases hr with hr | ⟨u, hr, hu⟩
-  · subst hr
-    simp only [List.append_nil]
-    rw [elementEnd_plain n _ (goodName_plain hn), elementEnd_gt]
-    simp
-  · subst hr
-    rw [List.append_assoc, elementEnd_plain n _ (goodName_plain hn)]
-    have hpre : ∀ c ∈ ([32, 120, 109, 108, 110, 115, 61] : Bytes), c ≠ cGt ∧ c ≠ cApos ∧ c ≠ cQuot := by decide
-    have : attrOf u ++ cGt :: w = [32, 120, 109, 108, 110, 115, 61] ++ (cQuot :: (u ++ cQuot :: cGt :: w)) := by
-      simp [attrOf, cQuot]
-    rw [this, elementEnd_plain _ _ hpre]
-    have hq : elementEnd 0 (cQuot :: (u ++ cQuot :: cGt :: w))
-        = (elementEnd 2 (u ++ cQuot :: cGt :: w)).map fun (p, r) => (cQuot :: p, r) := by
-      simp [elementEnd, cQuot, cGt, cApos]
-    rw [hq, elementEnd_dq u _ hu, elementEnd_gt]
-    simp [attrOf, cQuot]
+  rw [List.append_assoc, elementEnd_plain n _ (goodName_plain hn), hr.shape.1, elementEnd_gt]
+  simp
 
 
 /-! ### one markup construct -/
@@ -123,19 +161,17 @@ theorem goodName_last {n : Bytes} (h : goodName n = true) : ∃ i c, n = i ++ [c
   obtain ⟨hne, hall⟩ := h
   refine ⟨n.dropLast, n.getLast hne, (List.dropLast_concat_getLast hne).symm, hall _ (List.getLast_mem hne)⟩
 
-theorem attrOf_last (u : Bytes) : ∃ i, attrOf u = i ++ [cQuot] := ⟨[32, 120, 109, 108, 110, 115, 61, 34] ++ u, by simp [attrOf, cQuot]⟩
-
 /-- the last byte of the tag content is not `/` (so the tag is a `Start`, not an `Empty`) -/
 theorem getLast_start {n r : Bytes} (hn : goodName n = true) (hr : GoodRest r) : (n ++ r).getLast? ≠ some 47 := by
-  rcases hr with hr | ⟨u, hr, _⟩
+  rcases hr.shape.2 with hr | ⟨i, hr⟩
   · subst hr
     obtain ⟨i, c, hic, hc⟩ := goodName_last hn
     rw [List.append_nil, hic, List.getLast?_append]
     simp only [List.getLast?_singleton, Option.some_or, ne_eq, Option.some.injEq]
     exact (isNameByte_facts hc).2.2.2.2.2.1
   · subst hr
-    obtain ⟨i, hi⟩ := attrOf_last u
-    rw [hi, ← List.append_assoc, List.getLast?_append]
+    have : n ++ 32 :: (i ++ [cQuot]) = (n ++ 32 :: i) ++ [cQuot] := by simp
+    rw [this, List.getLast?_append]
     simp [cQuot]
 
 theorem takeWhile_all {p : UInt8 → Bool} : ∀ (l : Bytes), (∀ c ∈ l, p c = true) → l.takeWhile p = l
@@ -150,13 +186,12 @@ theorem takeWhile_name {n r : Bytes} (hn : goodName n = true) (hr : GoodRest r) 
     simp only [goodName, Bool.and_eq_true, List.all_eq_true] at hn
     simp [(isNameByte_facts (hn.2 c hc)).2.2.2.2.2.2.2]
   unfold nameOf
-  rcases hr with hr | ⟨u, hr, _⟩
+  rcases hr.shape.2 with hr | ⟨i, hr⟩
   · subst hr
     rw [List.append_nil]
     exact takeWhile_all n hall
   · subst hr
-    have : attrOf u = 32 :: ([120, 109, 108, 110, 115, 61, 34] ++ u ++ [34]) := by simp [attrOf]
-    rw [this, List.takeWhile_append_of_pos hall]
+    rw [List.takeWhile_append_of_pos hall]
     simp [List.takeWhile, isWs]
 
 theorem markup_start {n r : Bytes} (w : Bytes) (st : List Bytes) (hn : goodName n = true) (hr : GoodRest r) :
